@@ -232,6 +232,13 @@ def compare(d):
     spec_ok = 0
     inconclusive = 0
     inconclusive_keys = set()
+    ordinal = {}
+
+    def op_key():
+        parts = str(last_op).split()
+        if parts and parts[0] in ("equivdfa", "minimize"):
+            return (case, ("pair", ordinal.get((case, parts[0]), 0)))
+        return (case, tuple(parts[1:]))
     decided_keys = set()
     notes = []
     pairs_total = 0
@@ -255,13 +262,13 @@ def compare(d):
                 if v.startswith("S ok"):
                     spec_ok += 1
                     if v.startswith("S ok trackA decides"):
-                        decided_keys.add((case, tuple(str(last_op).split()[1:])))
+                        decided_keys.add(op_key())
                     m_ = re.search(r"pairs=(\d+)", v)
                     if m_:
                         pairs_total += int(m_.group(1))
                 elif v.startswith("S inconclusive"):
                     inconclusive += 1
-                    inconclusive_keys.add((case, tuple(str(last_op).split()[1:])))
+                    inconclusive_keys.add(op_key())
                 elif v.startswith("S note"):
                     notes.append(v[7:])
                 else:
@@ -269,6 +276,10 @@ def compare(d):
         elif line and not line.startswith("#"):
             last_op = line
             last_op_idx = i
+            # minimizer pairs have no arguments: number them within the case
+            w0 = line.split()[0]
+            if w0 in ("equivdfa", "minimize"):
+                ordinal[(case, w0)] = ordinal.get((case, w0), 0) + 1
     if mi != len(model):
         mismatches.append({"case": case, "op": "<end>", "op_line": len(ops), "real": "<end of expectations>",
                            "model": f"{len(model) - mi} extra model lines, first: {model[mi] if mi < len(model) else ''}"})
